@@ -43,10 +43,12 @@ type exploreCfg struct {
 	stopMid bool    // c06: Stop is called somewhere in the middle; the store is reopened afterwards
 	delFail int     // c17: >0: an OnDelete handler fails once, at this height; the deleter then retries from Tail()
 	delPar  bool    // c17: the deletion takes the parallel path (threshold lowered to 2 headers)
+	start   int     // the header the store holds when the walk begins (1, or — c17 without a deleter — one in the middle, so
+	// that some of the writers' chunks land below the tail, with or without a gap)
 }
 
 func genExplore(rnd *rand.Rand, mode string) exploreCfg {
-	c := exploreCfg{n: 4 + rnd.Intn(4), bsz: []int{1, 1, 2, 3, 64}[rnd.Intn(5)]}
+	c := exploreCfg{n: 4 + rnd.Intn(4), bsz: []int{1, 1, 2, 3, 64}[rnd.Intn(5)], start: 1}
 	// heights 2..n, some left out (gaps that are never filled), cut into ascending runs, runs mildly shuffled
 	var runs [][]int
 	var cur []int
@@ -97,6 +99,28 @@ func genExplore(rnd *rand.Rand, mode string) exploreCfg {
 		// stored in the end is what a sequential execution of the same appends stores, whoever comes first)
 		// (not together with the deleter: re-appending a pruned header legitimately moves the tail back down)
 		withDeleter := rnd.Intn(2) == 0
+		if !withDeleter && rnd.Intn(3) == 0 {
+			// the store starts with a header in the middle; that height is taken out of the writers' script
+			c.start = 3 + rnd.Intn(c.n-3)
+			var runs [][]int
+			for _, r := range c.script {
+				var cur []int
+				for _, h := range r {
+					if h == c.start {
+						if len(cur) > 0 {
+							runs = append(runs, cur)
+						}
+						cur = nil
+						continue
+					}
+					cur = append(cur, h)
+				}
+				if len(cur) > 0 {
+					runs = append(runs, cur)
+				}
+			}
+			c.script = runs
+		}
 		if !withDeleter && rnd.Intn(3) > 0 {
 			all := map[int]bool{1: true}
 			for _, r := range c.script {
@@ -184,7 +208,7 @@ func exploreOnce(t *testing.T, id int, rnd *rand.Rand, mode string) (rec0 Record
 			defer store.VerifSetDeleteParallelThreshold(old)
 		}
 		if !c.empty {
-			_ = st.Append(bg, chain.At(1))
+			_ = st.Append(bg, chain.At(uint64(c.start)))
 			_ = st.Sync(bg)
 		}
 		synctest.Wait()
@@ -208,13 +232,13 @@ func exploreOnce(t *testing.T, id int, rnd *rand.Rand, mode string) (rec0 Record
 		for i, w := range c.wants {
 			readers[i] = &reader{id: i + 1, want: w}
 		}
-		appended := map[int]bool{1: !c.empty}
+		appended := map[int]bool{c.start: !c.empty}
 		if c.empty {
-			delete(appended, 1)
+			delete(appended, c.start)
 		}
 		stored := map[int]bool{} // appended and not wiped since
 		if !c.empty {
-			stored[1] = true
+			stored[c.start] = true
 		}
 		returned := map[int]bool{} // heights whose Append had returned nil
 		syncedBad := 0
@@ -461,6 +485,14 @@ func exploreOnce(t *testing.T, id int, rnd *rand.Rand, mode string) (rec0 Record
 								syncedBad++
 								mu.Unlock()
 							}
+							// ... by height as well (wherever the chunk landed relative to Tail and Head)
+							xctx, xcancel := context.WithTimeout(context.WithValue(bg, procKey{}, "X"), time.Millisecond)
+							if g, err := st.GetByHeight(xctx, h.Height()); err != nil || g.Hash().String() != h.Hash().String() {
+								mu.Lock()
+								syncedBad++
+								mu.Unlock()
+							}
+							xcancel()
 						}
 					}
 				}()
@@ -681,7 +713,10 @@ func exploreOnce(t *testing.T, id int, rnd *rand.Rand, mode string) (rec0 Record
 			mu.Lock()
 			rec0.SyncedBad = syncedBad
 			rec0.TailBad = tailBad
-			rec0.TailWant = 1
+			rec0.TailWant = c.start // the bottom of the run of appended heights around the first header
+			for rec0.TailWant > 1 && appended[rec0.TailWant-1] {
+				rec0.TailWant--
+			}
 			if delOK {
 				rec0.TailWant = c.delTo
 			}
@@ -690,7 +725,7 @@ func exploreOnce(t *testing.T, id int, rnd *rand.Rand, mode string) (rec0 Record
 				rec0.FinalTail = int(tl.Height())
 			}
 			// everything has been appended and synced: Head is the top of the run of appended heights that starts at 1
-			rec0.HeadWant = 1
+			rec0.HeadWant = c.start
 			for appended[rec0.HeadWant+1] {
 				rec0.HeadWant++
 			}
